@@ -475,6 +475,14 @@ def extract_module(path, log):
     src = rewrite_loops(src, log)
     src = sep_blocks(src, log)
     src, twins = h2_twins(src, log)
+    # D1: derived Clone on a non-Copy struct: Verus's automatic specification says nothing about array
+    # fields; the derive is made external and an assumed specification `r == *self` is generated.
+    for m in list(re.finditer(r'#\[derive\(([^\)]*)\)\]\s*\n\s*pub struct (\w+)', src))[::-1]:
+        traits = [t.strip() for t in m.group(1).split(',')]
+        if 'Clone' in traits and 'Copy' not in traits:
+            src = src[:m.start()] + '#[verifier::external_derive]\n' + src[m.start():]
+            twins.append({'d1_type': m.group(2)})
+            log.append('D1 external derive(Clone) on struct %s + assumed spec r == *self' % m.group(2))
     return src, twins
 
 
